@@ -20,6 +20,7 @@ type AppStats struct {
 	ReplicaRuns, NoiseRuns, RestartRuns, Restarts                                  int
 	NoiseChecks, NoiseChecksPassed, NoiseQueries                                   int
 	NoiseFreshChecks, NoiseFreshPassed                                             int
+	NoiseFreshToContract                                                           int
 	NoiseQueriesCompared                                                           int
 	NoiseQueryDiffs                                                                []string
 	ReplicaDiffs, NoiseDiffs, RestartDiffs, NoisePanics                            []string
@@ -95,6 +96,7 @@ func GenerateCases(seed int64, n, blocks int, outPath, scratch, jsonPath, profil
 				for _, d := range ps.QueryMismatch {
 					st.NoiseQueryDiffs = append(st.NoiseQueryDiffs, fmt.Sprintf("history %d: %s", i, d))
 				}
+				st.NoiseFreshToContract += ps.FreshToContract
 				st.NoiseFreshChecks += ps.FreshChecks
 				st.NoiseFreshPassed += ps.FreshPassed
 				st.NoiseQueries += ps.Queries
